@@ -67,6 +67,12 @@ CHECKS["C12"] = ("layout/shape rules for the CQMap constructors, abstract evalua
     "Decides the c·q·q layouts of pure / measure / discard / encode / cups, the all-equal delta arity of measure, the wire routing of CQMap.tensor, the order and totality of the per-box dispatch with partner daggers, that every CQMap "
     "constructor call passes the kind of type its callee reads, the Born rule on scalars, and the circuit-side plumbing (is_mixed, init_and_discard, get_counts, measure). Trace preservation and numeric agreement of whole circuits are not decided.",
     TB, "DESIGN.md §4 C12")
+CHECKS["C13"] = ("effect typing of the to_tk handlers against abstractly constructed box signatures (register-arity invariant, loops summarised by verified growth), writer/reader factor agreement, "
+    "MRO-resolved dispatch analysis of the layer loop, batch-loop state discipline, shape comparison of the Born rule and the pre/postludes",
+    "Decides the angle convention of export and import (2·phase / angle/2, method names), the invariant len(qubits)/len(bits) = number of qubit/bit wires for every handler and box signature, that flag-daggered gates are exported "
+    "as dg operations and read back, that loops over a batch of circuits read scalar / post_selection / counts of the current item, the Born rule on scalars, the order and totality of the dispatch for 20 box classes, "
+    "init_and_discard / remove_ket1 / the from_tk postlude. Equality of output distributions on a simulator and the swap routing of from_tk are not decided.",
+    TB, "DESIGN.md §4 C13")
 NOT_YET = "check not built yet in this round (static rules designed in DESIGN.md §4; will be claimed when the rule module lands)"
 NOT_APPLICABLE = {("C%02d" % i): NOT_YET for i in range(1, 21) if ("C%02d" % i) not in CHECKS}
 NOTES = ("All checks are static analyses of /repo/discopy's source (python -m sa.check <id>); exit 0 / 1 (VIOLATION) / 2 (ANALYSIS-ERROR). "
